@@ -28,6 +28,16 @@ C19_HARNESSES = [
 
 CHECKS = {
     "C19": {"harnesses": C19_HARNESSES},
+    "C15": {
+        "harnesses": [
+            H("mutexh", "mtx_v1", 3, 4),
+            H("mutexh", "mtx_v2", 2, 3, args=[0], **{"cache-bits": 24}),
+            H("mutexh", "mtx_v2", 3, 4, args=[1]),
+            H("mutexh", "mtx_v2_loop", 3, 4),
+            H("mutexh", "mtx_fifo_v2", 3, 4),
+            H("mutexh", "mtx_fifo_v1", 3, 5),
+        ],
+    },
     "C03": {
         "harnesses": [
             H("stop", "stop_req2_cb", 3, 4),
